@@ -23,4 +23,12 @@ Valid(s) ==
     ELSE IF b \in 241..243 THEN n >= 4 /\ Cont(s[2]) /\ Cont(s[3]) /\ Cont(s[4]) /\ Valid(Rest(4))
     ELSE IF b = 244 THEN n >= 4 /\ s[2] \in 128..143 /\ Cont(s[3]) /\ Cont(s[4]) /\ Valid(Rest(4))
     ELSE FALSE
+
+(* A string view is the byte view of the string's encoding: `&str -> CSliceRef<u8>`, `&mut str ->   *)
+(* CSliceMut<u8>` and every way back (`into_str`, `into_mut_str`, TryFrom) keep the address and the *)
+(* length in BYTES (not characters) and all bytes; the replay checks this for every valid string.   *)
+StrViewLen(s) == Len(s)
+CharCount(s) == Len(SelectSeq(s, LAMBDA b : ~Cont(b)))
+(* the two differ exactly for strings with a multi-byte character, which the alphabet must contain *)
+DistinguishingInput(s) == Valid(s) /\ CharCount(s) # StrViewLen(s)
 =============================================================================
